@@ -19,7 +19,9 @@ zz v…                            D zz u…
 ch n                             D ch n c(n,0),…,c(n,n+2)
 ur w ord…                        D ur w word…
 bw w cnt                         D bw w <items> word,…           (first cnt items of the iterator)
-ss bits set                      D ss <count> subset,…
+ss bits set                      D ss <count> subset,…            (unsigned T of `bits` bits)
+ssi bits pattern                 D ssi <count> subset,…           (signed T; pattern = two's-complement bits of the mask,
+                                                                   items are the signed values the iterator yields)
 on v                             D on v idx,…
 id x k                           D id x parent= left= right= level= isl= isr= pl= pr= ll= lr= lisl= risr= mlc= mrc=
                                  D desc x k lm= rm= lk= rk= | D bits x <32 chars> | D pal x v0,…,v_level
@@ -300,21 +302,38 @@ def strictlyIncreasing : List Nat → Bool
   | a :: b :: rest => decide (a < b) && strictlyIncreasing (b :: rest)
   | _ => true
 
-def doSubsets (impl : Array String) (bits set : Nat) (s0 : St) : St := Id.run do
+def commaInt (xs : List Int) : String := if xs.isEmpty then "-" else joinWith "," (xs.map toString)
+def parseCommaInt (s : String) : Option (List Int) :=
+  if s == "-" then some [] else (s.splitOn ",").mapM parseInt?
+
+/-- subsets of a mask; `signed`: `T` is a signed integer, the mask is given by its two's-complement pattern and the
+    observed items are signed values.  Expected (Spec): ALL sub-masks of the pattern, each once, in increasing
+    order of the pattern. -/
+def doSubsets (impl : Array String) (signed : Bool) (bits set : Nat) (s0 : St) : St := Id.run do
   let mut s := { s0 with ops := s0.ops + 1 }
+  let tag := if signed then "ssi" else "ss"
   let pc := Spec.popcount 64 set
   let (items, ok) := BitIter.subsetCollect bits (2 ^ pc + 1) (BitIter.fromBitset set)
-  s := s.emit s!"D ss {if ok then toString items.length else "FUEL"} {commaNat items}"
-  if !(bits == 8 || bits == 32 || bits == 64) || set ≥ 2 ^ bits || pc > 12 then return s.skip "unsupported width / set"
-  let (l, s1) := s.take impl "D ss"
+  let shown : List Int := if signed then items.map (BitIter.signedVal bits) else items.map Int.ofNat
+  s := s.emit s!"D {tag} {if ok then toString items.length else "FUEL"} {commaInt shown}"
+  if !(bits == 8 || bits == 16 || bits == 32 || bits == 64) || set ≥ 2 ^ bits || pc > 16 then
+    return s.skip "unsupported width / set"
+  let (l, s1) := s.take impl s!"D {tag}"
   s := s1
-  let some ws := l | return missing impl s "D ss"
-  let some obs := parseCommaNat (ws.getD 1 "-") | return s.fail "unparsable D ss"
-  if ws.getD 0 "" != toString obs.length then return s.fail "D ss count does not match its items"
+  let some ws := l | return missing impl s s!"D {tag}"
+  let some obsV := parseCommaInt (ws.getD 1 "-") | return s.fail s!"unparsable D {tag}"
+  if ws.getD 0 "" != toString obsV.length then return s.fail s!"D {tag} count does not match its items"
   if !ok then return s.fail "model-out-of-fuel (subset iterator)"
-  if !strictlyIncreasing obs then return s.fail s!"subsets of {set} are not enumerated in increasing order"
-  if obs.any fun v => v &&& set != v then return s.fail s!"subset iterator of {set} yielded a non-subset"
-  if obs.length != 2 ^ pc then return s.fail s!"subset iterator of {set} yielded {obs.length} subsets, expected {2 ^ pc}"
+  -- values -> two's-complement patterns
+  let lo : Int := if signed then -(2 ^ (bits - 1) : Nat) else 0
+  let hi : Int := if signed then (2 ^ (bits - 1) : Nat) else (2 ^ bits : Nat)
+  if obsV.any fun v => v < lo || v ≥ hi then return s.fail s!"subset iterator of pattern {set} yielded a value outside the type"
+  let obs : List Nat := obsV.map fun (v : Int) => Int.toNat (if v < 0 then v + ((2 ^ bits : Nat) : Int) else v)
+  if !strictlyIncreasing obs then
+    return s.fail s!"subsets of pattern {set} ({bits} bits, signed={signed}) are not enumerated in increasing pattern order"
+  if obs.any fun v => v &&& set != v then return s.fail s!"subset iterator of pattern {set} yielded a non-subset"
+  if obs.length != 2 ^ pc then
+    return s.fail s!"subset iterator of pattern {set} ({bits} bits, signed={signed}) yielded {obs.length} subsets, expected {2 ^ pc}"
   s := { s with items := s.items + obs.length }
   if pc ≥ 2 then s := { s with nt := true }
   return s
@@ -588,7 +607,8 @@ def handle (c : Case) : CaseOut := Id.run do
       | some os => s := doUnrank c.impl (parseNat! w) os s
       | none => s := s.skip "unparsable ur"
     | ["bw", w, cnt] => s := doBW c.impl (parseNat! w) (parseNat! cnt) s
-    | ["ss", b, st] => s := doSubsets c.impl (parseNat! b) (parseNat! st) s
+    | ["ss", b, st] => s := doSubsets c.impl false (parseNat! b) (parseNat! st) s
+    | ["ssi", b, st] => s := doSubsets c.impl true (parseNat! b) (parseNat! st) s
     | ["on", v] => s := doOnes c.impl (parseNat! v) s
     | ["id", x, k] => s := doId c.impl (parseNat! x) (parseNat! k) s
     | ["lca", x, y] => s := doLca c.impl (parseNat! x) (parseNat! y) s
